@@ -3,6 +3,7 @@ CONSTANTS
   Threads <- T2
   Keys <- K4
   DirectKeys <- D4
+  MaxRepeats = 2
   DepsOpts <- DirectGraphs
   LoadsOpts <- W_dir
   SharedOpts = {TRUE, FALSE}
